@@ -176,7 +176,8 @@ impl BinWrite for ConInfo {
             });
         }
 
-        let gearsp = self.gearsp & !0b11110000;
+        // gear is the high nibble, the low nibble is spare
+        let gearsp = self.gearsp << 4;
         gearsp.write_options(writer, endian, ())?;
 
         self.speed.write_options(writer, endian, ())?;
